@@ -212,6 +212,13 @@ func execInsp(f []string) string {
 			return errEnum(e)
 		}
 		return "ok " + showBack("int", v)
+	case "batch":
+		// insp batch <kind> <item,item,…>: all inspect outputs evaluated in ONE program `%[a, b, …]`
+		// (falls back to one program per item when the batch is rejected); answer `ok ins:back,…`
+		if len(f) != 3 {
+			return "bad-op"
+		}
+		return batch(f[1], strings.Split(f[2], ","))
 	case "sweep":
 		// insp sweep <kind> <lo> <hi>: every code point in [lo,hi) (surrogates skipped)
 		if len(f) != 4 {
@@ -225,6 +232,67 @@ func execInsp(f []string) string {
 		return sweep(f[1], lo, hi)
 	}
 	return "bad-op"
+}
+
+func batch(kind string, items []string) string {
+	isLit := kind == "lit"
+	srcs := make([]string, len(items))
+	for i, a := range items {
+		if isLit {
+			b, ok := unhex(a)
+			if !ok {
+				return "bad-op"
+			}
+			srcs[i] = b
+		} else {
+			ins, ok := inspectOf(kind, a)
+			if !ok {
+				return "bad-op"
+			}
+			srcs[i] = ins
+		}
+	}
+	k := kind
+	if isLit {
+		k = "int"
+	}
+	backs := make([]string, len(items))
+	v, why := evalSource("%[" + strings.Join(srcs, ",\n") + "]")
+	done := false
+	if why == "" {
+		if t, ok := v.SafeAsReference().(value.ArrayTuple); ok && t.Length() == len(items) {
+			for i := range items {
+				backs[i] = showBack(k, t.AtVal(i))
+			}
+			done = true
+		}
+	}
+	if !done {
+		for i, src := range srcs {
+			r, w := evalSource(src)
+			if w != "" {
+				backs[i] = "!none"
+				if strings.HasPrefix(w, "!panic") {
+					backs[i] = "!panic"
+				}
+			} else {
+				backs[i] = showBack(k, r)
+			}
+		}
+	}
+	out := make([]string, len(items))
+	for i := range items {
+		b := backs[i]
+		if strings.HasPrefix(b, "!") && b != "!panic" {
+			b = "!none"
+		}
+		if isLit {
+			out[i] = b
+		} else {
+			out[i] = hexb(srcs[i]) + ":" + b
+		}
+	}
+	return "ok " + strings.Join(out, ",")
 }
 
 // sweep inspects every value of the range, evaluates all inspect outputs in ONE program
